@@ -216,9 +216,9 @@ def c11_mutex(pid, tier, seed):
 C19_MAP = {"C01_a_SuccessWithoutAck": "C19_c_SuccessWithoutValidAck", "C14_a_SuccessWithoutAck": "C19_c_SuccessWithoutValidAck",
            "C14_b_CodesDiffer": "C19_c_SuccessWithoutValidAck", "C14_b_CodeCount": "C19_c_SuccessWithoutValidAck",
            "C14_c_MalformedAckSurfaced": "C19_c_SuccessWithoutValidAck", "C01_b_HandlerArgsDiffer": "C19_c_SuccessWithoutValidAck",
-           "C02_q_RequestNeverCompleted": "C19_d_NoRecoveryAfterHostileBytes", "C05_a_CompletedTwice": "C19_e_CompletedTwice",
-           # the client goes on as if connected although what stood in for the CONNACK was not a well-formed packet
-           "C10_b_PacketBeforeConnack": "C19_c_HandshakeCompletedOnMalformedConnack"}
+           "C02_q_RequestNeverCompleted": "C19_d_NoRecoveryAfterHostileBytes", "C05_a_CompletedTwice": "C19_e_CompletedTwice"}
+# (C10_b_PacketBeforeConnack is NOT mapped: after hostile bytes the Observer does not know which mutated CONNACKs the
+#  library legitimately accepts - mapping it raised four false alarms on the unchanged tree and was withdrawn)
 
 
 def _run_asan(scripts, trace):
